@@ -69,6 +69,7 @@ func deepCopyValue(v reflect.Value) reflect.Value {
 // resetGlobals restores the library's package-level variables to their
 // pristine values. Cheap when nothing changed.
 func resetGlobals() {
+	resetClock()
 	g := globalsRoots()
 	if g == nil {
 		return
